@@ -39,7 +39,7 @@ CFG_DEFAULT = dict(
     Curvs="<- C2", Thicks="<- T1", ObjThicks="<- ObjInf", Conics="<- K1", ParmRows="<- Rows1",
     Glasses="<- G0", ImageFree="= FALSE", Noise="<- NoNoise", MaxNoise="= 0",
     Catalogue="<- MCCatalogue", Export="= TRUE")
-INVARIANTS = ["RejectsNSC", "SurfaceCount", "RadiusLaw", "VertexLaw", "ConicLaw", "ParmLaw", "StopLaw",
+INVARIANTS = ["RejectsNSC", "FinishTotal", "GridExact", "SurfaceCount", "RadiusLaw", "VertexLaw", "ConicLaw", "ParmLaw", "StopLaw",
               "MediumLaw", "WaveLaw", "FieldLaw", "ApertureLaw"]
 PROPERTIES = ["UnknownStutters", "BlockFrame", "SurfPushes"]
 ACTIONS = ["MODE", "ENPD", "FNUM", "OBNA", "GCAT", "FTYP", "XFLN", "YFLN", "PWAV", "WAVM", "SURF", "STOP",
@@ -97,6 +97,7 @@ def check_environment(ctx):
 # ------------------------------------------------------------- TLC export ----
 def coverage_counts(out):
     c = {}
+    out = out.split("The coverage statistics at")[-1]       # -coverage 1 reports every minute; the last is final
     for m in re.finditer(r"^<(\w+) line \d+, col \d+ to line \d+, col \d+ of module Zemax>: (\d+):(\d+)", out, flags=re.M):
         c[m.group(1)] = c.get(m.group(1), 0) + int(m.group(3))
     return c
@@ -460,7 +461,7 @@ def trace_validation(ctx, texts, recs):
             e2 = copy.deepcopy(ev)
             e2["id"] = nid
             fn(e2["post"])
-            want[nid] = code * 100 + j
+            want[nid] = (code * 100 + j, ev["id"])
             nid += 1
             cal.append(e2)
         one = Z.dyn(1.0 / 1024)
@@ -477,11 +478,13 @@ def trace_validation(ctx, texts, recs):
         variant(12, 0, lambda p: p["fields"].append([one, one]))
         variant(14, 0, lambda p: p.__setitem__("primary", p["primary"] % 12 + 1 if len(p["wl"]) > 1 else 2))
         variant(22, 0, lambda p: p.__setitem__("surf", p["surf"][:-1]))
-    verdicts = ctx.validate("Trace_Zemax", events + cal, shards=16, count_traces=len(events))
-    missed = [i for i, code in want.items() if code not in verdicts[i]]
-    if missed or not cal:
-        raise T.MachineryError("calibration: Trace_Zemax accepted %d corrupted record(s) (of %d)" % (len(missed), len(cal)))
-    ctx.extra["calibration_trace"] = {"corrupted_events": len(cal), "rejected": len(cal) - len(missed)}
+    verdicts = ctx.validate("Trace_Zemax", events + cal, shards=6 if len(events) < 400 else 16, count_traces=len(events))
+    # only corruptions of records the spec accepts count (a record that already fails may be "repaired" by one)
+    eff = {i: code for i, (code, base) in want.items() if not verdicts[base]}
+    missed = [i for i, code in eff.items() if code not in verdicts[i]]
+    if missed or len(eff) < 10:
+        raise T.MachineryError("calibration: Trace_Zemax accepted %d corrupted record(s) (of %d effective)" % (len(missed), len(eff)))
+    ctx.extra["calibration_trace"] = {"corrupted_events": len(eff), "rejected": len(eff) - len(missed)}
     by_kind = {}
     for (kind, text), (ev, obs, excmsg) in zip(texts, recs):
         by_kind[kind.split(":")[0]] = by_kind.get(kind.split(":")[0], 0) + 1
@@ -521,28 +524,30 @@ def main(ctx):
     # (a) surfaces, every block free including the image block (exposes what happens to the last block)
     grids.append(("surf_free", dict(MaxSurf="= 3", Types="<- BothTypes", ParmRows="<- Rows2",
                                      Curvs="<- C2" if quick else "<- C3", Thicks="<- T1" if quick else "<- T2",
-                                     ObjThicks="<- Obj2", Conics="<- K1", Glasses="<- G2", ImageFree="= TRUE"),
-                  900 if quick else 15000))
+                                     ObjThicks="<- ObjInf" if quick else "<- Obj2", Conics="<- K1", Glasses="<- G2", ImageFree="= TRUE"),
+                  700 if quick else 15000))
     # (b) four surfaces, plain image block, optional TYPE line
-    grids.append(("surf_plain4", dict(MinSurf="= 3", MaxSurf="= 4", Types="<- BothTypes", TypeOpt="<- TypeMaybe",
-                                       ParmRows="<- Rows1", Curvs="<- C2" if quick else "<- C3", Thicks="<- T1",
-                                       Conics="<- K1", Glasses="<- G0" if quick else "<- GQ", ObjThicks="<- ObjInf"),
-                  800 if quick else 15000))
+    grids.append(("surf_plain", dict(MinSurf="= 3", MaxSurf="= 4" if quick else "= 5", Types="<- BothTypes",
+                                      TypeOpt="<- TypeMaybe", ParmRows="<- Rows1", Curvs="<- C2", Thicks="<- T1",
+                                      Conics="<- NoneAtAll" if quick else "<- K1", Glasses="<- G0" if quick else "<- GQ",
+                                      ObjThicks="<- Obj2"),
+                  None if quick else 15000))
     # (c) glasses x catalogue lists
     grids.append(("glass", dict(MinSurf="= 3", MaxSurf="= 3", Types="<- StdOnly", Curvs="<- C1", Conics="<- NoneAtAll",
                                  Glasses="<- G6", GcatLists="<- Gcat5"), None))
     # (d) header: mode, aperture keywords and values, field type, unknown lines anywhere; one lens shape
-    hdr = dict(MinSurf="= 3", MaxSurf="= 3", Types="<- StdOnly", Curvs="<- C1", Conics="<- NoneAtAll", Glasses="<- GQ")
+    hdr = dict(MinSurf="= 3", MaxSurf="= 3", Types="<- StdOnly", Curvs="<- C1", Conics="<- NoneAtAll",
+               Glasses="<- G0" if quick else "<- GQ")
     grids.append(("header_ap", dict(hdr, Modes="<- BothModes", Apertures="<- Ap3" if quick else "<- Ap6", FieldTypes="<- FtBoth",
                                      Noise="<- Noise2" if quick else "<- Noise4", MaxNoise="= 1", ObjThicks="<- Obj2"),
-                  600 if quick else None))
+                  450 if quick else None))
     # (e) fields: 1-3 declared, padded lines, repeated and unsorted pairs
     grids.append(("header_fields", dict(hdr, MaxFld="= 3", FieldPairs="<- FP3" if quick else "<- FP4",
-                                         PadFld="<- Pad02", FieldTypes="<- FtBoth", Glasses="<- G0"),
-                  500 if quick else None))
+                                         PadFld="<- Pad01" if quick else "<- Pad02", FieldTypes="<- FtBoth", Glasses="<- G0"),
+                  350 if quick else None))
     # (f) wavelengths: 1-3 declared, padded WAVM lines, any primary, PWAV before or after
     grids.append(("header_waves", dict(hdr, MaxWl="= 3", Waves="<- W2", PadWl="<- Pad02", PwavFirst="<- PwBoth"),
-                  500 if quick else None))
+                  350 if quick else None))
     kwcount = {}
     stats = {"files": 0, "loads": 0, "agree": 0, "paraxial_compared": 0, "paraxial_reference_raises": 0,
              "by_surfaces": {}, "nsc_rejected_with": {}}
@@ -565,7 +570,7 @@ def main(ctx):
                         Glasses="<- G2", Noise="<- Noise4", MaxNoise="= 6")
         raws = run_sim(ctx, "simulate", sim_over, 60 if quick else 1500, ctx.seed + 11)
         pending.append(submit_replay(ctx, pool, raws, "simulate"))
-        tjobs = trace_jobs(ctx, rnd, 120 if quick else 1500)
+        tjobs = trace_jobs(ctx, rnd, 100 if quick else 1500)
         tfuts = [pool.submit(_load_chunk, tjobs[1][i:i + 10]) for i in range(0, len(tjobs[1]), 10)]
         for futs, used in pending:
             results = collect(futs)
